@@ -87,10 +87,16 @@ def render_params(ps, annotations=True):
 _counter = [0]
 
 
-def make_func(ps, name='f', extra_globals=None, body='return locals()', register_source=False, future=False):
-    """builds a real function whose def has exactly the abstract parameter list"""
-    src = 'def %s(%s):\n    %s\n' % (name, render_params(ps), body)
-    g = dict(GLOBALS_BASE)
+def make_func(ps, name='f', extra_globals=None, body='return locals()', register_source=False, future=False, ret=None, share_globals=None):
+    """builds a real function whose def has exactly the abstract parameter list (ret: text of a return annotation;
+    share_globals: an existing globals dict to define the function in -- functions of one module share their globals)"""
+    src = 'def %s(%s)%s:\n    %s\n' % (name, render_params(ps), ' -> %s' % ret if ret else '', body)
+    if share_globals is not None:
+        g = share_globals
+        for k, v in GLOBALS_BASE.items():
+            g.setdefault(k, v)
+    else:
+        g = dict(GLOBALS_BASE)
     if extra_globals:
         g.update(extra_globals)
     _counter[0] += 1
